@@ -35,8 +35,8 @@ def case_strategy(max_ops=25):
     weights.update({"inplace_meta": 4, "group_members": 2, "copy": 0})
     names = [n for n in ops.OPS if n != "copy"]
     return st.fixed_dictionaries({
-        "spec": specs.model_spec(max_mets=5, max_rxns=6, max_genes=6, families=("sparse", "pathway", "degenerate"), groups=True,
-                                 rich_meta=True, user_cons=1),
+        "spec": specs.with_shared_ids(specs.model_spec(max_mets=5, max_rxns=6, max_genes=6, families=("sparse", "pathway", "degenerate"),
+                                                       groups=True, rich_meta=True, user_cons=1)),
         "path": st.sampled_from(build.BUILD_PATHS),
         "pre": st.lists(ops.op_strategy(names + ["enter", "enter"], weights), max_size=8),
         "how": st.sampled_from(["copy", "copy", "deepcopy", "pickle"]),
